@@ -105,6 +105,7 @@ type plugWorld struct {
 	bindLog  []string
 	pending  map[string]pendingEv
 	approved map[string][]string // ns/name -> nodes the last filter of that pod returned
+	checklist *schedulerplugin.VerifChecklist // snapshot of the resync pass in progress
 }
 
 func phaseOf(n int) corev1.PodPhase {
@@ -222,6 +223,7 @@ func (w *plugWorld) startPlugin() error {
 		p.VerifSetCloudProvider(w.cloud)
 	}
 	w.plugin = p
+	w.checklist = nil
 	w.queue = nil
 	w.pending = map[string]pendingEv{}
 	_, err = p.VerifUpdateConfigMap()
@@ -336,7 +338,7 @@ func faultOf(c map[string]interface{}, k string) int {
 func (w *plugWorld) runOp(c map[string]interface{}) map[string]interface{} {
 	o := map[string]interface{}{"res": "ok"}
 	// symbolic references are resolved against the live tables BEFORE the call counters start
-	if op := Str(c, "op"); op == "resync" || op == "api_release" {
+	if op := Str(c, "op"); op == "resync" || op == "api_release" || op == "resync_item" {
 		iw := &ipamWorld{cli: w.gcli, ipam: w.plugin.GetIpam(), pending: w.pending}
 		c = iw.resolve(c)
 	}
@@ -503,6 +505,21 @@ func (w *plugWorld) runOp(c map[string]interface{}) map[string]interface{} {
 		ip := Str(c, "ip")
 		o["ip"] = ip
 		setErr(w.plugin.VerifResyncIP(net.ParseIP(ip)))
+	case "resync_fetch":
+		// a resync pass takes its snapshot; its items are handled later (resync_item), other requests in between
+		cl, err := w.plugin.VerifResyncFetch()
+		setErr(err)
+		w.checklist = cl
+	case "resync_item":
+		ip := Str(c, "ip")
+		o["ip"] = ip
+		if w.checklist == nil {
+			o["res"] = "skipped"
+			break
+		}
+		key, in := w.checklist.Key(net.ParseIP(ip))
+		o["in_snapshot"], o["snapshot_key"] = in, key
+		w.plugin.VerifResyncItem(w.checklist, net.ParseIP(ip))
 	case "api_release":
 		ip := Str(c, "ip")
 		key := Str(c, "key")
